@@ -303,6 +303,34 @@ func (r *Reach) eval(v ssa.Value) Abs {
 		}
 		return res
 	case *ssa.BinOp:
+		// integer comparisons of values that are constant on the explored paths (a loop counter on its first round)
+		if a, ok := r.evalInt(v.X, 0); ok {
+			if b, ok := r.evalInt(v.Y, 0); ok {
+				res, known := false, true
+				switch v.Op {
+				case token.EQL:
+					res = a == b
+				case token.NEQ:
+					res = a != b
+				case token.LSS:
+					res = a < b
+				case token.LEQ:
+					res = a <= b
+				case token.GTR:
+					res = a > b
+				case token.GEQ:
+					res = a >= b
+				default:
+					known = false
+				}
+				if known {
+					if res {
+						return True
+					}
+					return False
+				}
+			}
+		}
 		if v.Op != token.EQL && v.Op != token.NEQ {
 			return Unknown
 		}
@@ -345,6 +373,54 @@ func (r *Reach) eval(v ssa.Value) Abs {
 		}
 	}
 	return Unknown
+}
+
+// evalInt: the integer v is the same constant on every explored path reaching it (merges look at executable edges only).
+func (r *Reach) evalInt(v ssa.Value, depth int) (int64, bool) {
+	if depth > 6 {
+		return 0, false
+	}
+	switch x := v.(type) {
+	case *ssa.Const:
+		if x.Value != nil && x.Value.Kind() == constant.Int {
+			if b, ok := x.Type().Underlying().(*types.Basic); ok && b.Info()&types.IsInteger != 0 {
+				return constant.Int64Val(x.Value)
+			}
+		}
+	case *ssa.Phi:
+		b := x.Block()
+		var val int64
+		n := 0
+		for i, p := range b.Preds {
+			if !r.edge[[2]int{p.Index, b.Index}] {
+				continue
+			}
+			k, ok := r.evalInt(x.Edges[i], depth+1)
+			if !ok || (n > 0 && k != val) {
+				return 0, false
+			}
+			val = k
+			n++
+		}
+		return val, n > 0
+	case *ssa.BinOp:
+		if x.Op != token.ADD && x.Op != token.SUB {
+			return 0, false
+		}
+		a, ok := r.evalInt(x.X, depth+1)
+		if !ok {
+			return 0, false
+		}
+		b, ok := r.evalInt(x.Y, depth+1)
+		if !ok {
+			return 0, false
+		}
+		if x.Op == token.ADD {
+			return a + b, true
+		}
+		return a - b, true
+	}
+	return 0, false
 }
 
 // nonNilConstructors never return nil.
